@@ -878,4 +878,68 @@ theorem nerNet_valid (m : Machine) (wrap : Bool) (hff : FaultFree m wrap) (src :
   · rw [h]; exact hi.srcKey
   · exact hall _ h
 
+
+/-! ### `route()` on the fault-free machine -/
+
+theorem attachSinks_ok {f : Forest} : ∀ (sinks : List Sink), (∀ s, s ∈ sinks → s.chip ∈ f.keys) →
+    attachSinks f sinks = .ok (expectedLeaves sinks) := by
+  intro sinks
+  induction sinks with
+  | nil => intro _; rfl
+  | cons s r ih =>
+    intro hk
+    have h1 : f.has s.chip = true := (has_iff _ _).2 (hk s (by simp))
+    simp only [attachSinks, h1, if_true, ih (fun s' hs' => hk s' (by simp [hs'])), bind, Except.bind, pure,
+      Except.pure]
+    simp [expectedLeaves]
+
+theorem noDeadLinks_of_live {m : Machine} {f : Forest} (hl : ForestLive m f) : routeHasDeadLinks f m = false := by
+  simp only [routeHasDeadLinks]
+  rw [Bool.eq_false_iff]
+  intro h
+  simp only [List.any_eq_true, Bool.not_eq_true'] at h
+  obtain ⟨n, hn, k, hk, hdead⟩ := h
+  have := ((hl n hn).2 k hk).2.1
+  simp only at this
+  rw [this] at hdead
+  simp at hdead
+
+/-- the model of the loop body of `route()` on a fault-free machine: the repair is not entered, the only
+errors are oracle errors, and the result is a valid routing tree -/
+theorem routeNet_faultfree (m : Machine) (hff : FaultFree m (hasWrap m)) (src : Chip) (dests : List Chip)
+    (radius : Nat) (t : Tape) (order : List (Chip × Chip)) (sinks : List Sink) (legacy : Bool)
+    (hs : InRange m src) (hd : ∀ d, d ∈ dests → InRange m d)
+    (hsk : ∀ s, s ∈ sinks → s.chip = src ∨ s.chip ∈ dests) :
+    (∀ r, routeNet m src dests radius t order sinks legacy = .ok r →
+      r.repaired = false ∧ r.root = src ∧
+      ∃ tr, toTree r.forest r.leaves (r.forest.length + 1) r.root = some tr ∧ ValidTree m src sinks tr) ∧
+    (∀ e, routeNet m src dests radius t order sinks legacy = .error e → Err.isOracle e) := by
+  have hw : 1 ≤ m.w := by have := hs.1; have := hs.2.1; omega
+  have hh : 1 ≤ m.h := by have := hs.2.2.1; have := hs.2.2.2; omega
+  unfold routeNet
+  simp only [bind, Except.bind]
+  cases hner : nerNet src dests m.w m.h (hasWrap m) radius t with
+  | error e0 =>
+    simp only
+    refine ⟨fun r h => by simp at h, fun e h => ?_⟩
+    simp only [Except.error.injEq] at h
+    subst h
+    exact nerNet_err hw hh hs hd hner
+  | ok ft =>
+    obtain ⟨f0, t0⟩ := ft
+    simp only
+    obtain ⟨rank, hi, hall⟩ := nerNet_inv hw hh hs hd hner
+    have hlive := nerNet_live m (hasWrap m) hff src hw hh hi
+    have hkeys : ∀ s, s ∈ sinks → s.chip ∈ f0.keys := by
+      intro s hs'
+      rcases hsk s hs' with h | h
+      · rw [h]; exact hi.srcKey
+      · exact hall _ h
+    rw [noDeadLinks_of_live hlive]
+    simp only [Bool.false_eq_true, if_false, attachSinks_ok sinks hkeys, pure, Except.pure]
+    refine ⟨fun r h => ?_, fun e h => by simp at h⟩
+    simp only [Except.ok.injEq] at h
+    subst h
+    exact ⟨rfl, rfl, nerInv_valid m (hasWrap m) hff src f0 rank sinks hw hh hi hkeys⟩
+
 end Rig.C03.L
